@@ -173,7 +173,7 @@ class Run:
         rp.parent.mkdir(exist_ok=True)
         rec = {"property": self.pid, "kind": kind, "site": site, "key": key,
                "what": what, "payload": payload, "expected": expected,
-               "observed": observed, "seed": self.seed,
+               "observed": observed, "seed": self.seed, "tier": self.tier,
                "theorem_or_batch": theorem,
                "how_to_run": f"./check {self.pid} --replay {rp}"}
         if n < 25:
@@ -239,6 +239,53 @@ class Run:
               f" violations={len(self.violations)} "
               f"wall={ev['wall_s']}s")
         return 1 if self.violations else 0
+
+
+class ReplayRun(Run):
+    """a run that records failing inputs instead of reporting them"""
+
+    def __init__(self, pid, tier, seed):
+        super().__init__(pid, tier, seed)
+        self.hits = []
+        self.known = []
+
+    def failing(self, site, key, what, payload=None, expected=None,
+                observed=None, theorem=None):
+        self.hits.append((site, key, what))
+        return True
+
+    def obligation(self, name, ok, detail=""):
+        self.obl.append((name, bool(ok), detail))
+        if not ok:
+            self._failed_obligations.append(name)
+        return ok
+
+    def fixed_must_pass(self, fid, ok, detail=""):
+        if not ok:
+            self.hits.append(("regression:" + fid, fid, detail))
+
+
+def replay_by_rerun(mod, rec):
+    """generic replay: re-execute the property's check with the seed (and
+    tier) of the replay file and report whether the recorded failing input
+    (same site and key), or the recorded obligation, fails again.  Returns
+    True iff the property holds on it now."""
+    tier = rec.get("tier") or "quick"
+    run = ReplayRun(rec["property"], tier, int(rec.get("seed", 20260926)))
+    os.environ["NV_SKIP_COQCHK"] = "1"
+    try:
+        mod.check(run)
+    except BaseException as e:
+        if isinstance(e, KeyboardInterrupt):
+            raise
+        run.obligation("harness-completed", False, repr(e))
+    if rec.get("kind") == "obligation":
+        return rec.get("key") not in run.failed_obligations
+    for site, key, what in run.hits:
+        if site == rec.get("site") and key == rec.get("key"):
+            print("replay: fails again:", what[:500])
+            return False
+    return True
 
 
 # --------------------------------------------------------------------------
